@@ -80,6 +80,11 @@ def _mk_pytree(kind, R):
     def ob(w):
         obj = _build(w, kind, R)
         x = w.arr("x", "N", "D" if not kind.startswith("cond-") else ("Dy" if "identity" in kind else "Dx"))
+        # lazy registration: constructing an object registers its class as a pytree node (checked BEFORE anything that could
+        # register it by another route, e.g. __setstate__)
+        import jax as _real_jax
+        w.check("registered-on-construction", not _real_jax.tree_util.all_leaves([obj]),
+                f"{type(obj).__name__} is not a registered pytree node after construction (jit / vmap / scan would reject it)")
         # __getstate__ / __setstate__ (copy, pickle): the state is the attribute dictionary, restored verbatim
         import copy
         _same_attrs(w, "getstate-setstate", obj, copy.copy(obj))            # REAL _getstate / _setstate
